@@ -230,6 +230,24 @@ func (eng *Engine) Verify(fn *ssa.Function, spec *FuncSpec, tags map[string]bool
 			o.ObservePrefix = n
 		}
 	}
+	if spec != nil && spec.ModNone && !spec.Trusted && len(fn.Blocks) > 0 {
+		// a declared "modifies nothing" is compared with the inferred mod-set of the body (a static
+		// over-approximation of its writes): confirmed when that set is empty, otherwise listed as assumed
+		ms := eng.modSetOf(fn)
+		if ms.all || len(ms.descs) > 0 || len(ms.named) > 0 || ms.hasExpr || ms.boxed || len(ms.ghosts) > 0 {
+			var w []string
+			for k := range ms.descs {
+				w = append(w, k)
+			}
+			sort.Strings(w)
+			if len(w) > 4 {
+				w = append(w[:4], "...")
+			}
+			eng.assumes[fmt.Sprintf("declared frame 'modifies nothing' of %s is assumed: the inferred mod-set of its body is not empty (%s)", res.Func, strings.Join(w, ", "))] = true
+		} else {
+			eng.assumes[fmt.Sprintf("declared frame 'modifies nothing' of %s is confirmed by the inferred mod-set of its body (empty)", res.Func)] = true
+		}
+	}
 	if spec != nil {
 		for _, c := range spec.Clauses {
 			if c.Kind == KAtCallSet && !e.clauseHit[c] {
